@@ -121,4 +121,75 @@ theorem chunksExact_append_whole {α} (n : Nat) (hn : 0 < n) :
     rw [hsplit, List.append_assoc, chunksExact_append n hn _ _ htl, chunksExact_append n hn _ _ htl,
       ih (a.drop n) b hdl, List.cons_append]
 
+/-! ### cutting and comparing concatenations -/
+
+theorem exists_pieces {β} : ∀ (lens : List Nat) (X : List β), X.length = lens.sum →
+    ∃ ps : List (List β), ps.map List.length = lens ∧ ps.flatten = X := by
+  intro lens
+  induction lens with
+  | nil =>
+    intro X h
+    refine ⟨[], rfl, ?_⟩
+    simp only [List.sum_nil] at h
+    simp [List.eq_nil_of_length_eq_zero h]
+  | cons n ns ih =>
+    intro X h
+    simp only [List.sum_cons] at h
+    obtain ⟨ps, hps, hfl⟩ := ih (X.drop n) (by rw [List.length_drop]; omega)
+    refine ⟨X.take n :: ps, ?_, ?_⟩
+    · simp only [List.map_cons, List.length_take, hps]
+      congr 1
+      omega
+    · simp only [List.flatten_cons, hfl, List.take_append_drop]
+
+theorem flatten_inj {β} : ∀ (A B : List (List β)), A.map List.length = B.map List.length →
+    A.flatten = B.flatten → A = B := by
+  intro A
+  induction A with
+  | nil =>
+    intro B hl _
+    cases B with
+    | nil => rfl
+    | cons b bs => simp at hl
+  | cons a as ih =>
+    intro B hl hf
+    cases B with
+    | nil => simp at hl
+    | cons b bs =>
+      simp only [List.map_cons, List.cons.injEq] at hl
+      simp only [List.flatten_cons] at hf
+      obtain ⟨h1, h2⟩ := List.append_inj hf hl.1
+      rw [h1, ih bs hl.2 h2]
+
+theorem sum_lengths_const {β} (n : Nat) : ∀ ps : List (List β), (∀ p ∈ ps, p.length = n) →
+    (ps.map List.length).sum = ps.length * n := by
+  intro ps
+  induction ps with
+  | nil => intro _; simp
+  | cons a as ih =>
+    intro h
+    simp only [List.map_cons, List.sum_cons, List.length_cons]
+    rw [ih (fun p hp => h p (List.mem_cons_of_mem _ hp)), h a List.mem_cons_self, Nat.succ_mul]
+    omega
+
+/-- cutting into pixels = cutting into rows, then every row into pixels -/
+theorem chunksExact_rows {β} (c w h : Nat) (hc : 0 < c) (hw : 0 < w) (data : List β) (hlen : data.length = h * (w * c)) :
+    chunksExact c data = ((chunksExact (w * c) data).map (chunksExact c)).flatten := by
+  have hwc : 0 < w * c := Nat.mul_pos hw hc
+  obtain ⟨hfl, hpl⟩ := flatten_chunksExact (w * c) hwc h data hlen
+  have hP : ∀ p ∈ ((chunksExact (w * c) data).map (chunksExact c)).flatten, p.length = c := by
+    intro p hp
+    obtain ⟨l, hl, hpl'⟩ := List.mem_flatten.mp hp
+    obtain ⟨r, hr, rfl⟩ := List.mem_map.mp hl
+    exact (flatten_chunksExact c hc w r (hpl r hr)).2 p hpl'
+  have hflat : ((chunksExact (w * c) data).map (chunksExact c)).flatten.flatten = data := by
+    rw [List.flatten_flatten, List.map_map]
+    have : ∀ r ∈ chunksExact (w * c) data, (List.flatten ∘ chunksExact c) r = id r := by
+      intro r hr
+      exact (flatten_chunksExact c hc w r (hpl r hr)).1
+    rw [List.map_congr_left this, List.map_id, hfl]
+  have := chunksExact_flatten c hc _ hP
+  rw [hflat] at this
+  exact this
+
 end OxiModel
